@@ -346,9 +346,10 @@ Definition uv_ip6_addr (ip : list N) (port : Z) : Z * (list N * list N) :=
   let s := cstr ip in
   match strchr s 37 with
   | Some z =>
-      (* address_part[40]; sizes >= 40 are cut to 39 *)
-      let sz := if (40 <=? z)%nat then 39%nat else z in
-      addr_result (uv_inet_pton AF_INET6 (firstn sz s)) port 16
+      (* address_part[46]; if (address_part_size >= sizeof(address_part)) return UV_EINVAL;
+         the structure is already zero-filled with family and port set *)
+      if (46 <=? z)%nat then (UV_EINVAL, (htons port, repeat 0 16))
+      else addr_result (uv_inet_pton AF_INET6 (firstn z s)) port 16
   | None => addr_result (uv_inet_pton AF_INET6 s) port 16
   end.
 
